@@ -92,7 +92,7 @@ def verdicts(pid: str, repo: str):
     return [i for i in mine if i.verdict == 'violation' and i.key not in known], mine
 
 
-def check(pid: str, tier: str, replay: str = None, repo: str = None, quiet=False) -> int:
+def check(pid: str, tier: str, replay: str = None, repo: str = None, quiet=False, ctx=None) -> int:
     from . import registry
     from .ctx import Ctx
     t0 = time.time()
@@ -101,7 +101,7 @@ def check(pid: str, tier: str, replay: str = None, repo: str = None, quiet=False
         print(f'ANALYSIS-ERROR: no check registered for property {pid}')
         return 2
     info = registry.PROPS[pid]
-    ctx = Ctx(repo)
+    ctx = ctx or Ctx(repo)
     registry.check_slot_tables(ctx)
     results = run_rules(ctx, info['rules'])
     mine: list[Inst] = []
@@ -232,3 +232,28 @@ def check(pid: str, tier: str, replay: str = None, repo: str = None, quiet=False
         print(f'OK property={pid}: {len(mine)} obligations, {coverage["discharged"]} discharged, '
               f'{len(seen_known)} known finding(s), {wall:.2f}s')
     return 0
+
+
+def check_all(repo: str = None) -> dict:
+    """every property's quick check on one shared analysis context (used by the seed sweep: one parse, one run of
+    each rule).  -> {pid: {'exit': code, 'rules': [...]}}; no evidence is written."""
+    import contextlib
+    import io
+    import re
+    from . import registry
+    from .ctx import Ctx
+    os.environ['MALSA_NO_EVIDENCE'] = '1'
+    ctx = Ctx(repo)
+    out = {}
+    for pid in sorted(registry.PROPS):
+        buf = io.StringIO()
+        try:
+            with contextlib.redirect_stdout(buf):
+                code = check(pid, 'quick', repo=repo, ctx=ctx)
+        except Exception as e:      # same contract as the CLI: analysis errors are exit 2
+            code = 2
+            buf.write(f'ANALYSIS-ERROR: {e}')
+        txt = buf.getvalue()
+        out[pid] = {'exit': code, 'rules': sorted(set(re.findall(r'rule=(\w+)', txt))) if code == 1 else [],
+                    'note': txt.strip().splitlines()[-1][:200] if code == 2 and txt.strip() else ''}
+    return out
